@@ -255,6 +255,8 @@ func rpLocator(data []byte) error {
 	exel.Locate(eventlog.RIMLocationRaw, data, &exel.LocateOptions{})
 	exel.Locate(eventlog.RIMLocationURI, data, &exel.LocateOptions{Getter: &failGetter{}})
 	exel.Locate(eventlog.RIMLocationURI, data, &exel.LocateOptions{})
+	exel.Locate(eventlog.RIMLocationLocal, data, &exel.LocateOptions{UEFIVariableReader: real, Getter: &failGetter{}})
+	exel.Locate(eventlog.RIMLocationLocal, data, &exel.LocateOptions{})
 	exel.Locate(77, data, &exel.LocateOptions{})
 	_ = err
 	dec := "err"
@@ -816,6 +818,36 @@ func RunC07(run *vk.Run) {
 		ucs2le("../../etc/passwd"), ucs2le("a/b"), ucs2le(strings.Repeat("n", 5000)), ucs2le("a\x00b"), bytes.Repeat([]byte{0xff}, 64), {0x2f, 0, 0, 0}} {
 		add(rpCase{Target: "varname", Data: name, Key: "varname"})
 		add(rpCase{Target: "locator", Data: append(efiGUIDBytes(sev.GCEFwCertGUID), name...), Key: "locator-name"})
+	}
+
+	// locators of the "local device path" kind: UEFI device-path node lists (type, sub-type, 16-bit
+	// length, data) with every small / extreme node length, with and without an end node, alone and as
+	// the locator of the GCE firmware's SP800-155 event in a whole event log
+	{
+		node := func(typ, sub byte, length uint16, data ...byte) []byte {
+			return append([]byte{typ, sub, byte(length), byte(length >> 8)}, data...)
+		}
+		end := node(0x7f, 0xff, 4)
+		file := append(node(4, 4, uint16(4+len(ucs2le("\\EFI\\rim.bin")))), ucs2le("\\EFI\\rim.bin")...)
+		var paths [][]byte
+		paths = append(paths, append(append([]byte{}, file...), end...), file, end, nil)
+		for _, typ := range []byte{1, 4, 0x7f, 0} {
+			for _, sub := range []byte{4, 1, 0xff} {
+				for _, l := range []uint16{0, 1, 2, 3, 4, 5, 8, 0x7fff, 0xffff} {
+					n := node(typ, sub, l, 'x', 0, 'y', 0)
+					paths = append(paths, n, append(append([]byte{}, n...), end...), append(append(append([]byte{}, file...), n...), end...))
+				}
+			}
+		}
+		for _, dp := range paths {
+			add(rpCase{Target: "locator", Data: dp, Key: "devicepath"})
+			el := &eventlog.CryptoAgileLog{Header: eventlog.TCGPCClientPCREvent{EventType: eventlog.EvNoAction, EventData: eventlog.TCGEventData{Event: &eventlog.UnknownEvent{Data: []byte("Spec ID Event03\x00")}}},
+				Events: []*eventlog.TCGPCREvent2{{EventType: eventlog.EvNoAction, EventData: eventlog.TCGEventData{Event: sp800155(eventlog.RIMLocationLocal, dp, extract.GCEFirmwareManufacturer)}}}}
+			var b bytes.Buffer
+			if err := el.Marshal(&b); err == nil {
+				add(rpCase{Target: "eventlog", Data: b.Bytes(), Key: "devicepath-log"})
+			}
+		}
 	}
 
 	// --- genuine objects: every truncation, seeded byte mutations, field mutations
